@@ -1,19 +1,34 @@
 /- GENERATED: instance obligations for one logic, discharged by kernel evaluation.
-   `X ⊆ known`: every failing row is a committed known finding (Ptx/Gen/Known.lean). -/
+   `S` = the logic with its DOCUMENTED tables (Ptx/Sem/Spec.lean); rules, closure, trunk and frames
+   are what the translator read off the code.  `X ⊆ known`: every failing row is a committed
+   known finding (Ptx/Gen/Known.lean, generated from known_findings.json). -/
 import Ptx.Gen.L_CPL
 import Ptx.Gen.Known
 import Ptx.Sem.Subset
+import Ptx.Props.C01
 namespace Ptx.Gen.Obl.CPL
 open Ptx
 
-theorem tables_total : Gen.CPL.tablesTotalB = true := by decide +kernel
-theorem rules_exact : subsetB Gen.CPL.badRules (Known.badRules "CPL") = true := by decide +kernel
-theorem rules_sound : subsetB Gen.CPL.unsoundRules (Known.unsoundRules "CPL") = true := by decide +kernel
-theorem rules_total : subsetB Gen.CPL.missingRules (Known.missingRules "CPL") = true := by decide +kernel
-theorem rules_local : Gen.CPL.nonLocalRules = [] := by decide +kernel
-theorem closure_total : Gen.CPL.closureTotalB = true := by decide +kernel
-theorem closure_exact : subsetB Gen.CPL.badClosure (Known.badClosure "CPL") = true := by decide +kernel
-theorem read_total : Gen.CPL.readTotalB = true := by decide +kernel
-theorem read_exact : subsetB Gen.CPL.badRead (Known.badRead "CPL") = true := by decide +kernel
+/-- a modal / first-order extension has exactly the truth-functional tables of its base (CPL) -/
+theorem base_tables : Gen.CPL.tables.sameTF Gen.CPL.tables = true := by decide +kernel
+theorem spec_defined : Gen.CPL.specDefinedB = true := by decide +kernel
+theorem tables_spec : subsetB Gen.CPL.tableDiff (Known.tableDiff "CPL") = true := by decide +kernel
+theorem defined_ops : Gen.CPL.tables.definedOpsBad = [] := by decide +kernel
+theorem tables_total : Gen.CPL.sem.tablesTotalB = true := by decide +kernel
+theorem rules_exact : subsetB Gen.CPL.sem.badRules (Known.badRules "CPL") = true := by decide +kernel
+theorem rules_sound : subsetB Gen.CPL.sem.unsoundRules (Known.unsoundRules "CPL") = true := by decide +kernel
+theorem rules_total : subsetB Gen.CPL.sem.missingRules (Known.missingRules "CPL") = true := by decide +kernel
+theorem rules_local : Gen.CPL.sem.nonLocalRules = [] := by decide +kernel
+theorem closure_total : Gen.CPL.sem.closureTotalB = true := by decide +kernel
+theorem closure_exact : subsetB Gen.CPL.sem.badClosure (Known.badClosure "CPL") = true := by decide +kernel
+theorem read_total : Gen.CPL.sem.readTotalB = true := by decide +kernel
+theorem read_exact : subsetB Gen.CPL.sem.badRead (Known.badRead "CPL") = true := by decide +kernel
+theorem sound_core : Gen.CPL.sem.soundCoreB = true := by decide +kernel
+
+/-- C01 for this logic: a closed tableau reached by any legal derivation has no countermodel. -/
+theorem c01_valid_sound (arg : Argument) (t : Tableau)
+    (hd : Deriv Gen.CPL.sem.soundPart.noQuantPart (trunk Gen.CPL.sem arg) t) (hclosed : t.allClosed = true)
+    (M : Struct) (hM : M.Interp Gen.CPL.sem) (e : Env M.D) (w0 : M.W) : ¬ Countermodel Gen.CPL.sem M e w0 arg :=
+  Props.C01.C01_valid_sound_partial Gen.CPL.sem sound_core arg t hd hclosed M hM e w0
 
 end Ptx.Gen.Obl.CPL
